@@ -322,8 +322,19 @@ fn scan_differential(rng: &mut Rng, out: &mut Out) {
 /// C05): whenever such a file loads, both modes must agree on graph versus error – in particular
 /// on the files the checker rejects today because a mutable variable reaches an eager position.
 fn text_differential(rng: &mut Rng, out: &mut Out) {
-    let (text, source, label): (String, String, String) = if rng.chance(1, 2) {
+    let (text, source, label): (String, String, String) = if rng.chance(1, 12) {
+        // a parent with two dozen children and a pattern with three non-adjacent sibling steps:
+        // hundreds of in-progress matches at a time, thousands of matches in all
+        let n = rng.range(22, 30);
+        let source: String = (0..n).map(|i| format!("v{}\n", i)).collect();
+        let text = "(module (expression_statement) @s1 (expression_statement) @s2 (expression_statement) @s3) { node n attr (n) a = (source-text @s1), b = (source-text @s2), c = (source-text @s3) }".to_string();
+        (text, source, "wide:three_sibling_steps".to_string())
+    } else if rng.chance(1, 2) {
         let (mut st, name) = super::c08::family(rng);
+        let mut own_source: Option<String> = None;
+        if st[0].starts_with("__SOURCE__") {
+            own_source = Some(st.remove(0)["__SOURCE__".len()..].to_string());
+        }
         let mut header = String::new();
         if st[0].starts_with("__HEADER__") {
             header = st.remove(0)["__HEADER__".len()..].to_string();
@@ -331,7 +342,7 @@ fn text_differential(rng: &mut Rng, out: &mut Out) {
         if rng.chance(1, 2) {
             st.reverse();
         }
-        (format!("{}{}", header, st.join("\n")), "pass\nx = 1\n".to_string(), format!("family:{}", name))
+        (format!("{}{}", header, st.join("\n")), own_source.unwrap_or_else(|| "pass\nx = 1\n".to_string()), format!("family:{}", name))
     } else {
         let (name, t, s) = super::c05::differential_text(rng);
         (t, s, format!("directed:{}", name))
@@ -361,6 +372,9 @@ fn text_differential(rng: &mut Rng, out: &mut Out) {
         (Real::Graph(a), Real::Graph(b)) => match isomorphic(a, b, 200_000) {
             Iso::Same => {
                 out.feat("text:agree:graph");
+                if label.starts_with("wide:") {
+                    out.feat_n("text:agree:graph:wide_three_sibling_steps(matches)", a.nodes.len() as u64);
+                }
                 out.nontrivial(crate::util::mix(&[crate::util::hash_str(&text), crate::util::hash_str(&source)]));
             }
             Iso::Different(why) => out.violation("C02:graphs-differ", &format!("strict and lazy graphs are not isomorphic: {}", why), cj),
